@@ -274,7 +274,7 @@ URL_POOL = [
     "http://tracker.example.com/announce", "udp://t1.example.org:6969/announce",
     "https://example.net:443/ann?key=1&x=y", "http://a.b/c%20d", "http://ex.com/a+b",
     "http://exämple.com/ä", "udp://[::1]:80/announce", "http://x.y/#frag", "http://h/p=q",
-    "wss://tracker.example/socket", "http://127.0.0.1:8080/announce",
+    "wss://tracker.example/socket", "http://127.0.0.1:8080/announce", "http://tr.example/announce?tags=a,b",
 ]
 
 
